@@ -293,7 +293,7 @@ def exitFS (fw : Framework) (wandb ckpt del sl : Bool) : FS := fun p =>
   | .lastCkpt => if ckpt ∧ sl then some (cfg .used true false) else none
   | .chunksCfg => if fw = .npChunks then some (cfg .prepared true false) else none
   | .trainChunks | .valChunks => if fw = .npChunks ∧ ¬ del then some .data else none
-  | .bestCkptV1 | .lastCkptV1 => none
+  | .bestCkptV1 | .lastCkptV1 | .cwdTrainChunks | .cwdValChunks => none
 
 theorem fsAfter_repaired_eq (f : Flags) (rs : List Bool) :
     fsAfter (traceG .repaired f (true :: rs)) = exitFS f.fw f.wandb f.ckpt f.deleteChunks f.saveLast := by
@@ -351,6 +351,38 @@ theorem same_folder_exit (fwA : Framework) (wA cA dA lA : Bool) (fwB : Framework
   · exact same_folder_exit_tt wA dA lA fwB wB cB dB lB
   · exact same_folder_exit_nf wA dA lA fwB wB cB dB lB
   · exact same_folder_exit_nt wA dA lA fwB wB cB dB lB
+
+/-! ## Low-memory fallback -/
+
+theorem forall_mem_traceLM {P : Event → Prop} (v : Version) (f : Flags) (rounds : List Bool)
+    (h0 : ∀ e ∈ traceG v f rounds, P e)
+    (h1 : ∀ e ∈ initPhase v f, P e) (h2 : ∀ e ∈ resavePhase v f, P e) (h3 : ∀ e ∈ chunkPhaseLM, P e)
+    (h4 : ∀ b, ∀ e ∈ ckptRound v f b, P e) (h5 : ∀ e ∈ finallyPhaseLM v f, P e) :
+    ∀ e ∈ traceLM v f rounds, P e := by
+  intro e he
+  unfold traceLM at he
+  split at he
+  · exact h0 e he
+  · simp only [List.mem_append] at he
+    rcases he with (((h | h) | h) | h) | h
+    · exact h1 e h
+    · exact h2 e h
+    · exact h3 e h
+    · unfold fitPhase at h
+      split at h
+      · obtain ⟨b, _, hb⟩ := List.mem_flatMap.mp h
+        exact h4 b e hb
+      · cases h
+    · exact h5 e h
+
+theorem fsAfter_traceLM_any_epochs (v : Version) (f : Flags) (rs : List Bool) :
+    fsAfter (traceLM v f (true :: rs)) = fsAfter (traceLM v f [true]) := by
+  unfold traceLM
+  split
+  · exact fsAfter_any_epochs v f rs
+  · unfold fsAfter
+    simp only [fsFrom_append]
+    rw [fsFrom_fit_any_epochs]
 
 /-! ## Aborted runs -/
 
